@@ -243,6 +243,87 @@ def r4(ctx):
         ctx.check("Address.decode_address:'%s'" % lit, len(sts) == 1, where(m, d), "'%s' must parse to %s" % (lit, tname))
 
 
+@rule("C18.R7", "a notation is accepted only as a whole: every pattern the address parser matches its text against is anchored at the end (junk after a valid address is refused, not ignored)",
+      floor=9, engines="E0 constant evaluation of the patterns")
+def r7(ctx):
+    prog = ctx.prog
+    a = prog.cls(MOD, "Address")
+    m = a.module
+    d = a.methods["decode_address"]
+    n = 0
+    for c in calls_in(d):
+        pat = None
+        f = c.func
+        if norm(f) in ("re.match", "re.search") and c.args:
+            pat = c.args[0]
+            what = norm(c.args[0])[:40]
+        elif isinstance(f, ast.Attribute) and f.attr in ("match", "search") and isinstance(f.value, ast.Name) and f.value.id in m.consts:
+            v = m.consts[f.value.id]
+            v = v[0] if isinstance(v, (list, tuple)) else v
+            if isinstance(v, ast.Call) and norm(v.func) == "re.compile" and v.args:
+                pat = v.args[0]
+                what = f.value.id
+        elif norm(f) == "re.fullmatch" or (isinstance(f, ast.Attribute) and f.attr == "fullmatch"):
+            n += 1
+            continue
+        if pat is None:
+            continue
+        n += 1
+        text = prog.try_const(m, pat)
+        ok = isinstance(text, str) and (text.endswith("$") or text.endswith("\\Z")) and not text.endswith("\\$")
+        ctx.check("Address.decode_address:anchored[%s@%d]" % (what, n), ok, where(m, c), "the pattern %r is not anchored at its end: text after a valid address is silently ignored" % (text if isinstance(text, str) else norm(pat),))
+    if n < 8:
+        raise ShapeError("Address.decode_address: %d pattern matches found" % n)
+
+
+@rule("C18.R6", "Address(net, addr): a local station becomes a remote station and a local broadcast a remote broadcast on that network; any other kind is refused", floor=4,
+      engines="E1 paths + E5")
+def r6(ctx):
+    prog = ctx.prog
+    a = prog.cls(MOD, "Address")
+    m = a.module
+    f = a.methods.get("__init__")
+    if f is None:
+        raise AnchorMissing("Address.__init__")
+    ev = Evaluator(prog, m, a)
+    from .common import body_paths, path_value, consistent
+    arms = [s for s in walk_shallow(f) if isinstance(s, ast.If) and norm(s.test) in ("len(args) == 2", "2 == len(args)")]
+    if len(arms) != 1:
+        raise ShapeError("Address.__init__: the two-argument form was not found")
+    body = arms[0].body
+    dec = [i for i, s in enumerate(body) if any(norm(x.func) == "self.decode_address" for x in calls_in(s))]
+    if len(dec) != 1:
+        raise ShapeError("Address.__init__: the two-argument form must decode its second argument once")
+    net = [s for s in body[:dec[0]] if isinstance(s, ast.Assign) and norm(s.value) == "args[0]"]
+    netv = norm(net[0].targets[0]) if len(net) == 1 else "args[0]"
+    ctx.check("Address.__init__[net, addr]:decodes-second", norm([x for x in calls_in(body[dec[0]]) if norm(x.func) == "self.decode_address"][0].args[0]) == "args[1]", where(m, body[dec[0]]),
+              "the second argument is the address")
+    consts = {n: prog.const(m, a.attrs[n], a) for n in ("nullAddr", "localBroadcastAddr", "localStationAddr", "remoteBroadcastAddr", "remoteStationAddr", "globalBroadcastAddr")}
+    want = {"localStationAddr": "remoteStationAddr", "localBroadcastAddr": "remoteBroadcastAddr"}
+    rest = body[dec[0] + 1:]
+    paths = body_paths(rest)
+    for kind, val in sorted(consts.items()):
+        outs = set()
+        for p_ in paths:
+            if not consistent(p_.conds()):
+                continue
+            k1, v1 = path_value(p_, ev, {"self.addrType": val, netv: 7}, "self.addrType")
+            if k1 == "infeasible":
+                continue
+            if p_.term == "raise":
+                outs.add("refused")
+                continue
+            k2, v2 = path_value(p_, ev, {"self.addrType": val, netv: 7}, "self.addrNet")
+            outs.add((v1 if k1 == "value" else k1, v2 if k2 == "value" else k2))
+        if kind in want:
+            ok = outs == {(consts[want[kind]], 7)}
+            desc = "becomes %s on the given network" % want[kind]
+        else:
+            ok = outs == {"refused"}
+            desc = "is refused"
+        ctx.check("Address.__init__[net, addr]:%s" % kind, ok, where(m, arms[0]), "Address(net, addr) with a %s address %s (found %s)" % (kind, desc, sorted(map(str, outs))))
+
+
 @rule("C18.R5", "IP forms derive mask, host, subnet and directed broadcast as IPv4 arithmetic prescribes", floor=5, engines="E5 finite-domain expression evaluation")
 def r5(ctx):
     prog = ctx.prog
